@@ -167,6 +167,11 @@ def main() -> int:
         if fd['id'] in known_hit:
             print(f"KNOWN-FINDING: property={prop} {fd['id']}: {fd['what']} (reproduced on {known_hit[fd['id']]} kept cases)")
 
+    # per-worker scratch folders some checks keep under /dev/shm (named verif-<property>-<pid>)
+    import glob
+    import shutil
+    for d in glob.glob(f'/dev/shm/verif-{prop}-*'):
+        shutil.rmtree(d, ignore_errors=True)
     nviol = sum(len(v) for v in groups.values())
     path = core.write_evidence(ctx, level, nviol, len(known_hit))
     acc = ctx.acc
